@@ -352,9 +352,20 @@ def compare(res, what, inp, r_, m_, unordered=False):
     if same(r_, m_, unordered=unordered):
         res.count(f"{what}:agree:" + ("ok" if "ok" in r_ else r_["err"]))
         return True
+    if _val_has_set(inp.get("val")) and _has_positional(inp):
+        # a multi-element set fed to a positional routine (fixed tuple / named tuple): which elements land where depends on the
+        # hash order of the real set, which the model (insertion order) cannot know -- not comparable
+        res.skipped += 1
+        res.count(f"{what}:set-order-indeterminate")
+        return None
     res.count(f"{what}:DISAGREE")
     res.disagreements.append({"what": what, "input": inp, "real": {k: r_[k] for k in r_ if k in ("ok", "err", "msg")}, "model": m_})
     return False
+
+
+def _has_positional(inp):
+    txt = json.dumps([inp.get("ty"), inp.get("prog")])
+    return '"tuple"' in txt or '"namedtuple"' in txt
 
 
 def _val_has_set(vj):
